@@ -1,15 +1,19 @@
-# which overlay variant and which repository package each check is compiled into
-variant_of() {
+# Which overlay variant and repository package each check is compiled into.
+# parts_of <id> -> list of "<variant>:<package>:<check id inside that binary>"
+parts_of() {
   case "$1" in
-    C09|C16) echo sched ;;
-    *) echo seq ;;
+    C09|C16) echo "sched:cmd/keymasterd:$1" ;;
+    C19) echo "seq:cmd/keymaster:C19" ;;
+    C20) echo "seq:cmd/keymasterd:C20 seq:eventmon/eventrecorder:C20R seq:eventmon/monitord:C20M" ;;
+    *) echo "seq:cmd/keymasterd:$1" ;;
   esac
 }
-pkg_of() {
+# extra_bins <check>: further binaries a check needs (exported as env)
+extra_bins() {
   case "$1" in
-    C19) echo cmd/keymaster ;;
-    C20R) echo eventmon/eventrecorder ;;
-    *) echo cmd/keymasterd ;;
+    C19) local save="$BIN"; build_bin seq cmd/keymasterd; export KMV_SERVER_BIN="$BIN"; BIN="$save" ;;
   esac
 }
+variant_of() { local p; p="$(parts_of "$1")"; echo "${p%%:*}"; }
+pkg_of() { local p; p="$(parts_of "$1" | cut -d' ' -f1)"; p="${p#*:}"; echo "${p%%:*}"; }
 ALL_CHECKS="C03"
